@@ -430,6 +430,53 @@ theorem supplemented_rejects_more (Infer : InferFn)
   obtain ⟨e, he⟩ := h
   exact ⟨e, by simp [constructSupplemented, he]⟩
 
+/-! ### No state between calls -/
+
+/-- **construct_history_free**: in any sequence of constructor calls every call is answered as if it
+    were alone — whatever came before or comes after it. -/
+theorem construct_history_free (Infer : InferFn) (cs : List Call) :
+    runHistory Infer cs = cs.map (construct Infer) := by
+  induction cs with
+  | nil => rfl
+  | cons c cs ih => simp [runHistory, ih]
+
+theorem construct_history_free_at (Infer : InferFn) (pre post : List Call) (c : Call) :
+    (runHistory Infer (pre ++ c :: post))[pre.length]? = some (construct Infer c) := by
+  rw [construct_history_free]
+  simp
+
+/-- A memoising implementation is indistinguishable from the stateless one exactly when its key
+    determines the answer: if equal keys imply equal `construct`, every history is answered as by
+    `runHistory` … -/
+theorem memo_sound {K} [DecidableEq K] (key : Call → K) (Infer : InferFn)
+    (hkey : ∀ c1 c2, key c1 = key c2 → construct Infer c1 = construct Infer c2)
+    (cs : List Call) : runMemo key Infer [] cs = runHistory Infer cs := by
+  have gen : ∀ (cs : List Call) (cache : List (K × Result)),
+      (∀ k r, lookupK k cache = some r → ∃ c, key c = k ∧ r = construct Infer c) →
+      runMemo key Infer cache cs = runHistory Infer cs := by
+    intro cs
+    induction cs with
+    | nil => intro cache _; rfl
+    | cons c cs ih =>
+      intro cache hinv
+      simp only [runMemo, runHistory]
+      cases hl : lookupK (key c) cache with
+      | some r =>
+        obtain ⟨c', hk, hr⟩ := hinv _ _ hl
+        simp only
+        rw [hr, hkey c' c hk, ih cache hinv]
+      | none =>
+        simp only
+        rw [ih]
+        intro k r hlk
+        simp only [lookupK] at hlk
+        by_cases he : key c = k
+        · rw [if_pos he] at hlk
+          exact ⟨c, he, by cases hlk; rfl⟩
+        · rw [if_neg he] at hlk
+          exact hinv k r hlk
+  exact gen cs [] (by intro k r h; simp [lookupK] at h)
+
 /-! ### Non-vacuity -/
 
 /-- good namings exist for every call, so `singleton_alpha` / `eager_agrees` speak about every call -/
@@ -543,6 +590,29 @@ example : prune (singleton addCall) =
 example : (singleton addCall).opset = ("", 14) := by decide
 
 example : stripUnk (.seq (f32 [.sym "N", .sym "unk__12", .const 3])) = .seq (f32 [.sym "N", .unk, .const 3]) := by
+  decide
+
+def splitSig : Sig :=
+  { op := "Split", domain := "", version := 13, inputs := [⟨"input", .single⟩, ⟨"split", .optional⟩],
+    outputs := [⟨"outputs", .variadic⟩], minInput := 1, minOutput := 1 }
+
+def splitCall (n : Nat) : Call :=
+  { sig := splitSig, args := [.var 0, .none], attrs := [("axis", some "a0")], outVariadic := n
+    info := fun _ => ⟨some (f32 [.const 6]), none⟩ }
+
+/-- a judgement that types every requested output -/
+def typeAll : InferFn := fun m => some (m.graphOutputs.map (fun k => (k, some (f32 [.unk]))))
+
+/-- … and a key that forgets the number of requested outputs is *not* such a key: the same Split
+    asked for 2 and then for 3 outputs answers the second call with the first call's two types
+    (the third output stays untyped), while the stateless constructor types all three. -/
+theorem memo_without_output_count_counterexample :
+    runMemo (fun c => (c.sig.op, c.args)) typeAll [] [splitCall 2, splitCall 3]
+      ≠ runHistory typeAll [splitCall 2, splitCall 3] := by decide
+
+example : runHistory typeAll [splitCall 2, splitCall 3] =
+    [.ok [("outputs_0", some (f32 [.unk])), ("outputs_1", some (f32 [.unk]))],
+     .ok [("outputs_0", some (f32 [.unk])), ("outputs_1", some (f32 [.unk])), ("outputs_2", some (f32 [.unk]))]] := by
   decide
 
 end C05
